@@ -18,10 +18,11 @@ type qtPtr struct {
 }
 
 // qtMap relates model coordinates (integers) to the float64 coordinates given to the real tree.
-//   plain:  real = int
-//   scaled: real = int / div (div a power of two: exact), distance limits likewise - a unit-square tree
-//   ranked: real = pool[int], an arbitrary increasing table of floats (non-dyadic bounds, cell midlines, values
-//           one ulp apart): only order-based operations are judged (add, remove, bound search)
+//
+//	plain:  real = int
+//	scaled: real = int / div (div a power of two: exact), distance limits likewise - a unit-square tree
+//	ranked: real = pool[int], an arbitrary increasing table of floats (non-dyadic bounds, cell midlines, values
+//	        one ulp apart): only order-based operations are judged (add, remove, bound search)
 type qtMap struct {
 	div    float64
 	ranked bool
@@ -74,6 +75,9 @@ type qtEv struct {
 	Inb   [][]int  `json:"inb"`
 	NT    int      `json:"nt"`
 	Rk    int      `json:"ranked"`
+	Tree  [][2]int `json:"tree"`  // the real node tree: rows {path code, pointer id (0 = emptied node)}
+	XTree [][2]int `json:"xtree"` // the node tree the implementation-shaped spec predicts (replayed histories)
+	HasX  int      `json:"hasx"`
 }
 
 type qtQueries struct {
@@ -96,6 +100,10 @@ func accept(f [2]int) quadtree.FilterFunc {
 // qtObserve fills the contents, node walk and query rows of an event from the real tree.
 func qtObserve(q *quadtree.Quadtree, e *qtEv, qs *qtQueries, bufs bool) {
 	e.Items, e.Nodes, e.Finds, e.KNN, e.Inb = [][3]int{}, [][7]int{}, [][]int{}, [][]int{}, [][]int{}
+	e.Tree = [][2]int{}
+	if e.XTree == nil {
+		e.XTree = [][2]int{}
+	}
 	if qs.noQuery {
 		// contents from the node walk only: no query touches the tree (C19 compares the walk before/after)
 		q.VerifWalk(func(path []int, v orb.Pointer, cell orb.Bound) {
@@ -120,6 +128,13 @@ func qtObserve(q *quadtree.Quadtree, e *qtEv, qs *qtQueries, bufs bool) {
 			row[0], row[1], row[2] = vp.id, vp.l[0], vp.l[1]
 		}
 		e.Nodes = append(e.Nodes, row)
+		if len(path) <= 13 { // the path code fits a TLC integer
+			code := 1
+			for _, k := range path {
+				code = 4*code + k
+			}
+			e.Tree = append(e.Tree, [2]int{code, row[0]})
+		}
 	})
 	for _, f := range qs.filters {
 		ff := accept(f)
@@ -191,10 +206,17 @@ func qtID(x orb.Pointer) int {
 }
 
 type qtOp struct {
-	Op  string `json:"op"`
-	K   int    `json:"k"`
-	ID  int    `json:"id"`
-	Res string `json:"res"`
+	Op   string   `json:"op"`
+	K    int      `json:"k"`
+	ID   int      `json:"id"`
+	Res  string   `json:"res"`
+	Tree [][2]int `json:"tree"`
+}
+
+func sortRows2(r [][2]int) [][2]int {
+	out := append([][2]int{}, r...)
+	sort.Slice(out, func(i, j int) bool { return out[i][0] < out[j][0] })
+	return out
 }
 
 // qtApply performs one operation on the real tree and returns the event (queries not yet filled).
@@ -288,6 +310,8 @@ func init() {
 				}
 				e.Exp = o.Res
 				e.NT = 1
+				e.XTree, e.HasX = sortRows2(o.Tree), 1
+				e.Tree = sortRows2(e.Tree)
 				c.emitTo(shard, e)
 			}
 		})
